@@ -334,7 +334,7 @@ def dump_one(f: TextIO, data: IOData):
     atcoords = data.atcoords / angstrom
     f.write("$COORD\n")
     for n, coord in zip(data.atnums, atcoords):
-        f.write(f"   {n:d}   {coord[0]: ,.6f}  {coord[1]: ,.6f}  {coord[2]: ,.6f}\n")
+        f.write(f"   {n:d}   {coord[0]: .6f}  {coord[1]: .6f}  {coord[2]: .6f}\n")
     f.write("$END\n")
     f.write("\n")
 
@@ -342,7 +342,7 @@ def dump_one(f: TextIO, data: IOData):
     if "mulliken" in data.atcharges:
         f.write("$CHARGES\n")
         for charge in data.atcharges["mulliken"]:
-            f.write(f"  {charge: ,.6f}\n")
+            f.write(f"  {charge: .6f}\n")
         f.write("$END\n")
         f.write("\n")
 
@@ -432,12 +432,12 @@ def _dump_helper_coeffs(f, data, spin=None):
         raise DumpError("A spin must be specified", f)
 
     for j in range(0, norb, 5):
-        en = " ".join([f"   {e: ,.12f}" for e in ener[j : j + 5]])
+        en = " ".join([f"   {e: .12f}" for e in ener[j : j + 5]])
         irre = " ".join([f"{irr}" for irr in irreps[j : j + 5]])
         f.write(irre + "\n")
         f.write(en + "\n")
         for orb in coeff[:, j : j + 5]:
-            coeffs = " ".join([f"  {c: ,.12f}" for c in orb])
+            coeffs = " ".join([f"  {c: .12f}" for c in orb])
             f.write(coeffs + "\n")
 
     f.write(" $END\n")
@@ -458,6 +458,6 @@ def _dump_helper_occ(f, data, spin=None):
         raise DumpError("A spin must be specified", f)
 
     for j in range(0, norb, 5):
-        occs = " ".join([f"  {o: ,.7f}" for o in occ[j : j + 5]])
+        occs = " ".join([f"  {o: .7f}" for o in occ[j : j + 5]])
         f.write(occs + "\n")
     f.write(" $END\n")
